@@ -217,10 +217,19 @@ func mergeAuthorizerHealthCheckEvents() *eventsMergerImpl[dbs.DbHealthCheck] {
 	return newEventsMerger[dbs.DbHealthCheck](TagAuthorizerHealthCheck, withUniqueEventOverwrite())
 }
 
+// burns add to the burner's total: several burns of one client in a block are summed
 func mergeAuthorizerBurnEvents() *eventsMergerImpl[state.Burn] {
-	return newEventsMerger[state.Burn](TagAuthorizerBurn, withUniqueEventOverwrite())
+	return newEventsMerger[state.Burn](TagAuthorizerBurn, withEventMerge(func(a, b *state.Burn) (*state.Burn, error) {
+		amount, err := currency.AddCoin(a.Amount, b.Amount)
+		if err != nil {
+			return nil, err
+		}
+		a.Amount = amount
+		return a, nil
+	}))
 }
 
+// every mint adds to its signers' totals: all mints of a block are kept
 func mergeAddBridgeMintEvents() *eventsMergerImpl[BridgeMint] {
-	return newEventsMerger[BridgeMint](TagAddBridgeMint, withUniqueEventOverwrite())
+	return newEventsMerger[BridgeMint](TagAddBridgeMint)
 }
